@@ -175,8 +175,13 @@ func c19Prefix(s string) *bgp.IPAddrPrefix {
 	return p
 }
 
-func c19BGPMsgs() map[string]func() *bgp.BGPMessage {
+// c19BGPMsgs: as4 = the record's subtype is one of the *_AS4 ones. RFC 6396 4.4.2: in the other subtypes the
+// AS_PATH of the embedded message is in the 2-octet encoding (what a 2-octet session carries on the wire).
+func c19BGPMsgs(as4 bool) map[string]func() *bgp.BGPMessage {
 	asp := func() bgp.PathAttributeInterface {
+		if !as4 {
+			return bgp.NewPathAttributeAsPath([]bgp.AsPathParamInterface{bgp.NewAsPathParam(bgp.BGP_ASPATH_ATTR_TYPE_SEQ, []uint16{65001, 23456})})
+		}
 		return bgp.NewPathAttributeAsPath([]bgp.AsPathParamInterface{bgp.NewAs4PathParam(bgp.BGP_ASPATH_ATTR_TYPE_SEQ, []uint32{65001, 4200000000})})
 	}
 	return map[string]func() *bgp.BGPMessage{
@@ -421,7 +426,7 @@ func c19Constructible() []c19Msg {
 								case addPath:
 									mk = NewBGP4MPMessageAddPath
 								}
-								b, err := mk(as.p, as.l, 1, c19A(ip.p), c19A(ip.l), as4, c19BGPMsgs()[bn]())
+								b, err := mk(as.p, as.l, 1, c19A(ip.p), c19A(ip.l), as4, c19BGPMsgs(as4)[bn]())
 								if err != nil {
 									return nil, err
 								}
